@@ -405,7 +405,7 @@ func (n *Tree[V]) findNode(path string, captures []string, matcher LookupMatcher
 			}
 		}
 
-		return nil, 0, nil, n.backtrackingEnabled
+		return nil, 0, nil, n.catchAllChild.backtrackingEnabled
 	}
 
 	return nil, 0, nil, true
